@@ -42,11 +42,16 @@ def generate(rng, tier, stats):
     stats.update({"apps": len(apps), "hist_len": {}, "wrong_type_msgs": 0, "perm_ops": 0})
     for a in apps:
         C12.prepare(a)
-    for i in range(n):
-        a = apps[i % len(apps)]
-        hist = C12.gen_history(rng, a, stats, 30, lens=(2, 3, 4, 5, 6, 8, 10, 12, 16, 20))
-        stats["perm_ops"] += 1
-        yield "perm %d %s %s %d %d" % (a.index, a.desc, hist, rng.randint(1, 2 ** 31 - 1), 40 if tier == "quick" else 200)
+    # a file holding +infinity does not scan (known finding C12-K9): it has no message lines to permute
+    C12.NO_POSINF = True
+    try:
+        for i in range(n):
+            a = apps[i % len(apps)]
+            hist = C12.gen_history(rng, a, stats, 30, lens=(2, 3, 4, 5, 6, 8, 10, 12, 16, 20))
+            stats["perm_ops"] += 1
+            yield "perm %d %s %s %d %d" % (a.index, a.desc, hist, rng.randint(1, 2 ** 31 - 1), 40 if tier == "quick" else 200)
+    finally:
+        C12.NO_POSINF = False
 
 
 def nontrivial(op):
@@ -58,12 +63,10 @@ def oracle(op, out):
     if out.startswith("crash") or out == "bad-op":
         return "implementation: " + out
     d = C12.parse_out(out)
+    # only what the statement says: every permutation loads like the file as written (state and reported count);
+    # whether that state is the saved one, and the count the number of lines, are C12's clauses
     if d.get("SAME") != "1":
         return "a permutation of the messages loads differently: permutation %s gives result %s" % (d.get("W"), out.split(" W ", 1)[-1][:300])
-    if d.get("R") != d.get("N"):
-        return "load reports %s messages for a file of %s" % (d.get("R"), d.get("N"))
-    if d.get("F") != d.get("O"):
-        return "state not restored"
     return None
 
 
